@@ -78,7 +78,7 @@ func genCell(t *rapid.T, profile int) string {
 	return sb.String()
 }
 
-var csvNames = []string{"a", "b", "c", "d", "e", "f", "col 1", "ä", "x,y", "q\"", "A", "long name with blanks", "n\nl", "''", "\"\"", "\ufeffbom", "null", " pad "}
+var csvNames = []string{"a", "b", "c", "d", "e", "f", "col 1", "ä", "x,y", "q\"", "A", "long name with blanks", "n\nl", "''", "\"\"", "\ufeffbom", "null", " pad ", "'ab\"", "\"x'", "'\""}
 
 type csvCase struct {
 	doc      hx.CSVDoc
@@ -162,7 +162,7 @@ func genCSVCase(t *rapid.T) csvCase {
 		profiles[i] = rapid.SampledFrom([]int{0, 1, 2, 4, 4, 4}).Draw(t, "profile")
 	}
 	if big {
-		nrows = rapid.IntRange(1000, 2500).Draw(t, "bigrows")
+		nrows = rapid.IntRange(1000, 3200).Draw(t, "bigrows")
 		seed := hx.SplitMix(rapid.Uint64().Draw(t, "bigseed"))
 		d.Rows = make([][]string, nrows)
 		d.Quote = make([][]bool, nrows)
@@ -176,7 +176,7 @@ func genCSVCase(t *rapid.T) csvCase {
 				d.Quote[r][i] = seed.Intn(7) == 0
 			}
 		}
-		c.conf.RowCountHint = rapid.SampledFrom([]int{0, 1500, 2001, 2500, 5000, 100000}).Draw(t, "hint")
+		c.conf.RowCountHint = rapid.SampledFrom([]int{0, 1500, 2001, 2001, 2002, 2100, 2500, 5000, 100000}).Draw(t, "hint") // too low, about right, far too high
 	} else {
 		d.Rows = make([][]string, nrows)
 		d.Quote = make([][]bool, nrows)
